@@ -475,4 +475,130 @@ theorem pseudo_geom (p : Pos) (m : Mv) (h : pseudo p m = true) : geomB (p.at m.f
       · next hk => rw [hk]; exact any_rayReach_aligned p.b m dirs8 (fun _ h => h) ha
       · cases ha
 
+/-! ## frame: what a move leaves alone -/
+
+/-- squares the move does not touch keep their contents -/
+theorem applyBoard_frame (P : Pos) (m : Mv) (i : Nat) (h1 : i ≠ m.f.val) (h2 : i ≠ m.t.val)
+    (h3 : P.ep = some m.t → i ≠ (if P.wtm then m.t.val - 8 else m.t.val + 8))
+    (h4 : kind (P.at m.f) = 1 → m.t.val = m.f.val + 2 → (i ≠ m.f.val + 1 ∧ i ≠ m.f.val + 3))
+    (h5 : kind (P.at m.f) = 1 → m.t.val + 2 = m.f.val → (i ≠ m.f.val - 1 ∧ i ≠ m.f.val - 4)) :
+    gt (applyBoard P m) i = gt P.b i := by
+  unfold applyBoard
+  simp only
+  have hb0 : gt (if (kind (P.at m.f) == 6 && P.ep == some m.t && !(P.at m.t != 0) && m.f.x != m.t.x) = true
+      then setSq P.b (if P.wtm = true then m.t.val - 8 else m.t.val + 8) 0 else P.b) i = gt P.b i := by
+    split
+    · next h =>
+      simp only [Bool.and_eq_true, beq_iff_eq] at h
+      rw [gt_setSq, if_neg (fun hh => h3 h.1.1.2 hh.1.symm)]
+    · rfl
+  generalize (if (kind (P.at m.f) == 6 && P.ep == some m.t && !(P.at m.t != 0) && m.f.x != m.t.x) = true
+      then setSq P.b (if P.wtm = true then m.t.val - 8 else m.t.val + 8) 0 else P.b) = b0 at hb0 ⊢
+  rw [← hb0]
+  split
+  · next h =>
+    simp only [Bool.and_eq_true, beq_iff_eq] at h
+    obtain ⟨a, b⟩ := h4 h.1 h.2
+    simp only [gt_setSq]
+    rw [if_neg (by omega), if_neg (by omega), if_neg (by omega), if_neg (by omega)]
+  · split
+    · next h =>
+      simp only [Bool.and_eq_true, beq_iff_eq] at h
+      obtain ⟨a, b⟩ := h5 h.1 h.2
+      simp only [gt_setSq]
+      rw [if_neg (by omega), if_neg (by omega), if_neg (by omega), if_neg (by omega)]
+    · simp only [gt_setSq]
+      rw [if_neg (by omega), if_neg (by omega)]
+
+/-- a square off the first and last rank that the move neither leaves, nor enters, nor clears by an e.p. capture -/
+theorem square_stays (P : Pos) (m : Mv) (i : Nat) (hp : pseudo P m = true) (hi : 8 ≤ i ∧ i < 56)
+    (h1 : i ≠ m.f.val) (h2 : i ≠ m.t.val)
+    (h3 : P.ep = some m.t → i ≠ (if P.wtm then m.t.val - 8 else m.t.val + 8)) :
+    gt (applyBoard P m) i = gt P.b i := by
+  have hK : kind (P.at m.f) = 1 → (m.t.val = m.f.val + 2 ∨ m.t.val + 2 = m.f.val) → (m.f.val = 4 ∨ m.f.val = 60) := by
+    intro k1 hc
+    rw [pseudo_king P m k1, Bool.and_eq_true] at hp
+    obtain ⟨_, hS, hL⟩ := kingRule_facts P m hp.2
+    rcases hc with c | c
+    · have := (hS c).1; split at this <;> omega
+    · have := (hL c).1; split at this <;> omega
+  apply applyBoard_frame P m i h1 h2 h3
+  · intro k1 c; have := hK k1 (Or.inl c); omega
+  · intro k1 c; have := hK k1 (Or.inr c); omega
+
+theorem pseudo_own_f (P : Pos) (m : Mv) (hp : pseudo P m = true) : own P.wtm (gt P.b m.f.val) = true := by
+  rw [← gt_at]
+  by_cases k6 : kind (P.at m.f) = 6
+  · rw [pseudo_pawn P m k6, Bool.and_eq_true] at hp; exact (preRule_facts P m hp.1).1
+  · by_cases k1 : kind (P.at m.f) = 1
+    · rw [pseudo_king P m k1, Bool.and_eq_true] at hp; exact (preRule_facts P m hp.1).1
+    · rw [pseudo_other P m k6 k1, Bool.and_eq_true] at hp; exact (preRule_facts P m hp.1).1
+
+/-- what the successor's board shows around the predecessor's e.p. square `e` -/
+theorem ep_traces (P : Pos) (m : Mv) (e : Sq) (hp : pseudo P m = true) (hs : epShape P = true) (he : P.ep = some e) :
+    let i := if P.wtm then e.val - 8 else e.val + 8
+    let j := if P.wtm then e.val + 8 else e.val - 8
+    (gt (applyBoard P m) i = (if P.wtm then BPAWN else WPAWN) ∨ m.t.val = i ∨ m.t = e) ∧
+    (gt (applyBoard P m) e.val = 0 ∨ m.t = e) ∧ (gt (applyBoard P m) j = 0 ∨ m.t.val = j) := by
+  have hown := pseudo_own_f P m hp
+  have hf := m.f.isLt
+  have ht := m.t.isLt
+  have hel := e.isLt
+  unfold epShape at hs
+  rw [he] at hs
+  have hne0 : ∀ k, gt P.b k = 0 → k ≠ m.f.val := by
+    intro k hk h; rw [← h, hk] at hown; revert hown; cases P.wtm <;> decide
+  cases hw : P.wtm
+  · simp only [hw, Bool.false_eq_true, if_false, Bool.and_eq_true, beq_iff_eq, Sq.y] at hs hown ⊢
+    obtain ⟨⟨⟨⟨s1, s2⟩, s3⟩, s4⟩, s5⟩ := hs
+    change gt P.b (e.val + 8) = WPAWN at s3
+    change gt P.b (e.val - 8) = 0 at s4
+    rw [gt_at] at s2
+    have hep : P.ep = some m.t → m.t = e := fun h => by rw [he] at h; injection h with h; exact h.symm
+    refine ⟨?_, ?_, ?_⟩
+    · by_cases t2 : m.t = e
+      · exact Or.inr (Or.inr t2)
+      · by_cases t1 : m.t.val = e.val + 8
+        · exact Or.inr (Or.inl t1)
+        · left
+          rw [square_stays P m (e.val + 8) hp (by omega) ?_ (fun h => t1 h.symm) (fun h => absurd (hep h) t2)]
+          · exact s3
+          · intro h; rw [← h, s3] at hown; revert hown; decide
+    · by_cases t2 : m.t = e
+      · exact Or.inr t2
+      · left
+        rw [square_stays P m e.val hp (by omega) (hne0 _ s2) (fun h => t2 (Fin.ext h.symm)) (fun h => absurd (hep h) t2)]
+        exact s2
+    · by_cases t1 : m.t.val = e.val - 8
+      · exact Or.inr t1
+      · left
+        rw [square_stays P m (e.val - 8) hp (by omega) (hne0 _ s4) (fun h => t1 h.symm) ?_]
+        · exact s4
+        · intro h; have := hep h; rw [this, hw]; simp only [Bool.false_eq_true, if_false]; omega
+  · simp only [hw, if_true, Bool.and_eq_true, beq_iff_eq, Sq.y] at hs hown ⊢
+    obtain ⟨⟨⟨⟨s1, s2⟩, s3⟩, s4⟩, s5⟩ := hs
+    change gt P.b (e.val - 8) = BPAWN at s3
+    change gt P.b (e.val + 8) = 0 at s4
+    rw [gt_at] at s2
+    have hep : P.ep = some m.t → m.t = e := fun h => by rw [he] at h; injection h with h; exact h.symm
+    refine ⟨?_, ?_, ?_⟩
+    · by_cases t2 : m.t = e
+      · exact Or.inr (Or.inr t2)
+      · by_cases t1 : m.t.val = e.val - 8
+        · exact Or.inr (Or.inl t1)
+        · left
+          rw [square_stays P m (e.val - 8) hp (by omega) ?_ (fun h => t1 h.symm) (fun h => absurd (hep h) t2)]
+          · exact s3
+          · intro h; rw [← h, s3] at hown; revert hown; decide
+    · by_cases t2 : m.t = e
+      · exact Or.inr t2
+      · left
+        rw [square_stays P m e.val hp (by omega) (hne0 _ s2) (fun h => t2 (Fin.ext h.symm)) (fun h => absurd (hep h) t2)]
+        exact s2
+    · by_cases t1 : m.t.val = e.val + 8
+      · exact Or.inr t1
+      · left
+        rw [square_stays P m (e.val + 8) hp (by omega) (hne0 _ s4) (fun h => t1 h.symm) ?_]
+        · exact s4
+        · intro h; have := hep h; rw [this, hw]; simp only [if_true]; omega
 end Chess
